@@ -227,3 +227,14 @@ var _ = pr.AutoF
 //@   loop 6 invariant table.Width.V() >= tmp.tableMinContentWidth
 //@   loop 7 invariant table.Width.V() >= tmp.tableMinContentWidth
 //@   loop 8 invariant table.Width.V() >= tmp.tableMinContentWidth
+
+// css-page-3 §5.3 "using named pages": a page break is forced between two siblings when the page
+// name the first one ENDS on differs from the page name the second one STARTS on; the next page
+// then has the name the second one starts on.
+//@ func blockLevelPageName
+//@   props C12
+//@   nopanic
+//@   requires siblingBefore != nil && siblingAfter != nil
+//@   modifies nothing
+//@   ensures second(siblingBefore.PageValues()) != first(siblingAfter.PageValues()) ==> result == first(siblingAfter.PageValues())
+//@   ensures second(siblingBefore.PageValues()) == first(siblingAfter.PageValues()) ==> result == ""
